@@ -297,6 +297,9 @@ class StreamModel:
                     res['chunks'].append(observe(interp, insp, False))
             interp.call(interp.get_attr(insp, 'finish'), [])
             res['final'] = observe(interp, insp, True)
+            chk = insp.fields.get('_safety_checks')
+            res['checks'] = sorted(k.v for k in chk.keys) if isinstance(
+                chk, DictV) else None
             regs = insp.fields.get('_capture_regions')
             res['regions'] = {}
             if isinstance(regs, DictV):
